@@ -34,7 +34,7 @@ theorem learn_expiry (t : Table) (now now' : Int) (a : Addr) (p : PeerId) (h : n
     ((t.learn now a p).housekeep now').cache.find? (fun v => v.addr = a) = none := by
   rw [List.find?_eq_none]
   intro v hv
-  simp only [housekeep, learn_cache, List.mem_filter, List.mem_cons, decide_eq_true_eq] at hv
+  simp only [housekeep, Generated.cacheLive, learn_cache, List.mem_filter, List.mem_cons, decide_eq_true_eq] at hv
   rcases hv with ⟨rfl | ⟨_, hne⟩, hto⟩
   · simp only at hto
     omega
